@@ -130,6 +130,8 @@ def check_c06(den, v):
                                                                    (ep["dir"], ep["width"], ep["lower"])))
             elif [_t(b) for b in p["pins"]] != [_t(b) for b in ep["pins"]]:
                 bad("port.pins", "%s.%s: %s expected %s" % (name, pn, p["pins"], ep["pins"]))
+            if "attrs" in ep and (p["data"].get("VERILOG.InlineConstraints") or {}) != ep["attrs"]:
+                bad("port.attrs", "%s.%s: %s expected %s" % (name, pn, p["data"].get("VERILOG.InlineConstraints"), ep["attrs"]))
         # cables
         gc = {c["name"]: c for c in D["cables"]}
         if len(gc) != len(D["cables"]) or set(gc) != set(E["cables"]):
@@ -146,6 +148,8 @@ def check_c06(den, v):
                 if c["data"].get("VERILOG.CableType") != E["cable_types"][cn]:
                     bad("cable.type", "%s.%s: %s" % (name, cn, c["data"].get("VERILOG.CableType")))
         # definition data
+        if E.get("timescale") is not None and D["data"].get("VERILOG.TimeScale") != E["timescale"]:
+            bad("definition.timescale", "%s: %r expected %r" % (name, D["data"].get("VERILOG.TimeScale"), E["timescale"]))
         if (D["data"].get("VERILOG.Parameters") or {}) != E["params"]:
             bad("definition.params", "%s: %s expected %s" % (name, D["data"].get("VERILOG.Parameters"), E["params"]))
         if (D["data"].get("VERILOG.InlineConstraints") or {}) != E["attrs"]:
@@ -248,7 +252,12 @@ def view04(v, keep_defs=None, iface_free=()):
     """The attributes C04 lists.  `keep_defs`: names of the definitions that were written (None = all);
     `iface_free`: definitions whose interface is re-inferred from use (not written): only the connected
     pins of their instances are compared."""
-    out = {"top": vname(v["top"]), "defs": {}}
+    out = {"top": vname(v["top"]), "defs": {}, "collisions": []}
+
+    def put(table, key, val, what):
+        if key in table:
+            out["collisions"].append("%s %s" % (what, key))
+        table[key] = val
     for name, D in v["defs"].items():
         if D["lib"] == ASSIGN_LIB:
             continue
@@ -259,8 +268,8 @@ def view04(v, keep_defs=None, iface_free=()):
         prim = D["lib"] == "hdi_primitives"
         for p in D["ports"]:
             d = p["dir"]
-            X["ports"][vname(p["name"])] = [("INOUT" if d == "UNDEFINED" else d), p["width"], p["lower"],
-                                            None if prim else [_tn(b) for b in p["pins"]]]
+            put(X["ports"], vname(p["name"]), [d, p["width"], p["lower"], None if prim else [_tn(b) for b in p["pins"]],
+                                               p["data"].get("VERILOG.InlineConstraints") or {}], "port of " + name)
         if not prim:
             # a port none of whose pins is wired and that has no same-named cable (inferred black box, husk left
             # by flatten) is not expressible in Verilog as such: every Verilog port has its implicit net.  Complete it.
@@ -272,8 +281,8 @@ def view04(v, keep_defs=None, iface_free=()):
         for c in D["cables"]:
             if prim:
                 break       # the contents of a black box are not part of the view (interface only)
-            X["cables"][vname(c["name"])] = [c["lower"], c["width"], c["data"].get("VERILOG.InlineConstraints") or {},
-                                      c["data"].get("VERILOG.CableType") or "wire"]
+            put(X["cables"], vname(c["name"]), [c["lower"], c["width"], c["data"].get("VERILOG.InlineConstraints") or {},
+                                                c["data"].get("VERILOG.CableType") or "wire"], "cable of " + name)
         for i in D["insts"]:
             rd = v["defs"].get(i["ref"])
             if i["reflib"] == ASSIGN_LIB:
@@ -296,10 +305,10 @@ def view04(v, keep_defs=None, iface_free=()):
                         if not row:
                             continue
                     pins[vname(p["name"])] = row
-            X["insts"][vname(i["name"])] = [vname(i["ref"]), i["data"].get("VERILOG.Parameters") or {},
-                                     i["data"].get("VERILOG.InlineConstraints") or {}, pins]
+            put(X["insts"], vname(i["name"]), [vname(i["ref"]), i["data"].get("VERILOG.Parameters") or {},
+                                               i["data"].get("VERILOG.InlineConstraints") or {}, pins], "instance of " + name)
         X["assigns"].sort(key=repr)
-        out["defs"][vname(name)] = X
+        put(out["defs"], vname(name), X, "definition")
     return out
 
 
@@ -310,8 +319,24 @@ def diff04(a, b, iface_free=()):
     def bad(what, detail):
         if len(pr) < 12:
             pr.append((what, detail))
+    if a.get("collisions"):
+        # two distinct elements of the netlist to be written have the same Verilog identifier (n and \\n):
+        # no text can keep them apart
+        bad("names.two-elements-one-verilog-identifier", "; ".join(a["collisions"][:4]))
     if a["top"] != b["top"]:
         bad("top", "%s -> %s" % (a["top"], b["top"]))
+    # a port without direction has no Verilog spelling: the writer emits `inout` (documented); reported under its
+    # own tag, then compared as INOUT so that nothing else hides behind it
+    undef = []
+    for n, A in a["defs"].items():
+        for pn, pv in A["ports"].items():
+            if pv[0] == "UNDEFINED":
+                bp = b["defs"].get(n, {}).get("ports", {}).get(pn)
+                if bp is not None and bp[0] == "INOUT":
+                    undef.append("%s.%s" % (n, pn))
+                    pv[0] = "INOUT"
+    if undef:
+        bad("port.direction.undefined-becomes-inout", ", ".join(undef[:6]))
     sa = {n for n in a["defs"] if n not in iface_free}
     sb = {n for n in b["defs"] if n not in iface_free}
     if sa != sb:
@@ -345,8 +370,10 @@ def diff04(a, b, iface_free=()):
                         sub = "port.set"
                     elif x[:3] != y[:3]:
                         sub = "port.dir-width-base"
-                    else:
+                    elif x[3] != y[3]:
                         sub = "port.pins"
+                    else:
+                        sub = "port.attrs"
                 bad(sub, "%s: %s" % (n, dd))
     return pr
 
